@@ -8,7 +8,9 @@ bd = common.WORK / f"baseline-off-{common.repo_key()}"
 bd.mkdir(parents=True, exist_ok=True)
 if not (bd / "build.ninja").exists():
     r = subprocess.run(["cmake", "-G", "Ninja", "-S", str(common.REPO), "-B", str(bd), "-DCMAKE_BUILD_TYPE=RelWithDebInfo",
-                        "-DCMAKE_CXX_FLAGS=-Wno-error", "-DCPM_USE_LOCAL_PACKAGES=ON"])
+                        "-DCMAKE_CXX_FLAGS=-Wno-error", "-DCPM_USE_LOCAL_PACKAGES=ON",
+                        "-DFETCHCONTENT_SOURCE_DIR_GOOGLETEST=/usr/src/googletest", "-DFETCHCONTENT_UPDATES_DISCONNECTED=ON",
+                        "-DFETCHCONTENT_TRY_FIND_PACKAGE_MODE=ALWAYS"])
     if r.returncode:
         sys.exit(r.returncode)
 r = subprocess.run(["cmake", "--build", str(bd), "-j", str(common.JOBS)])
